@@ -8,6 +8,7 @@ from .. import paths
 from ..core import FUNC, call_attr, calls_in, const, dotted, is_const, kwarg, norm, text, walk_local
 
 EXPLANATION = [
+    'C12.encode-once: the fan-out functions of notify / indicate pass the application\'s `value` through unchanged, and the single-bearer helpers encode exactly once (read_value(bearer) if value is None else attribute.encode_value(value)).',
     'C12.mtu-agreement: both ends adopt min(what this side announced, what the peer announced) as ATT_MTU (same rule as C10.mtu-agreement): long reads continue exactly where the first response ended and values are truncated to the MTU the client computed.',
     'C12.late-binding: no closure that is created inside a loop and kept (a sink, an event listener, a callback) reads the loop\'s variables freely; values are bound per iteration (default argument or functools.partial), so each bearer\'s callback serves its own bearer.',
     'C12.indication-slot: indications are built in one place, sent under the per-bearer semaphore, and the pending-confirmation slot is cleared in `finally` (same rule as C10.indication-slot): one lost confirmation cannot stop later indications.',
@@ -487,10 +488,39 @@ def include_agreement(ctx):
             'a UUID present in the declaration is taken from offset 4', 'inline UUID of the include declaration is not read from offset 4 under a length test', p.loc(r))
 
 
-def uuid_wire(ctx):
+def encode_once(ctx):
+    """The value an application hands to notify / indicate is typed (adapters); it is encoded exactly once, in the single-bearer
+    helper: `read_value()` (already encoded) when no value was given, `encode_value(value)` otherwise.  The fan-out
+    functions above it pass `value` through untouched."""
+    R, p = ctx.r, ctx.p
+    rule = 'C12.encode-once'
+    srv = p.cls(SRV)
+    if srv is None:
+        R.bad(rule, SRV, 'anchor missing')
+        return
+    for name in ('notify_subscriber', 'indicate_subscriber', '_notify_or_indicate_subscribers', 'notify_subscribers', 'indicate_subscribers'):
+        m = srv.methods.get(name)
+        if m is None:
+            continue
+        re_ = [n for n in ast.walk(m) if isinstance(n, (ast.Assign, ast.AugAssign, ast.AnnAssign, ast.NamedExpr)) and any(isinstance(y, ast.Name) and y.id == 'value' and isinstance(y.ctx, ast.Store) for y in ast.walk(n))]
+        R.check(not re_, rule, f'{SRV}.{name} | value passed through', '`value` is not reassigned on its way to the single-bearer helper',
+                f'`value` is replaced in {name} (line {re_[0].lineno if re_ else 0}) before it reaches the helper that encodes it: a value obtained from read_value() is already encoded and gets encoded a second time (adapters raise or send other bytes)', p.loc(re_[0]) if re_ else p.loc(m))
+    for name in ('_notify_single_subscriber', '_indicate_single_bearer'):
+        m = srv.methods.get(name)
+        if m is None:
+            R.bad(rule, f'{SRV}.{name}', 'anchor missing')
+            continue
+        enc = [n for n in walk_local(m) if isinstance(n, ast.Assign) and isinstance(n.value, ast.IfExp) and 'read_value' in norm(n.value) and 'encode_value' in norm(n.value)]
+        ok = len(enc) == 1 and norm(enc[0].value.test) in ('value is None', 'value is not None')
+        if ok:
+            a, b = (enc[0].value.body, enc[0].value.orelse) if norm(enc[0].value.test) == 'value is None' else (enc[0].value.orelse, enc[0].value.body)
+            ok = 'read_value(bearer)' in norm(a) and norm(b) == 'attribute.encode_value(value)'
+        R.check(ok, rule, f'{SRV}.{name} | one encoding', 'read_value(bearer) when no value is given, encode_value(value) otherwise', 'the value sent is not "read_value() or encode_value(value)": it is encoded twice or not at all', p.loc(m))
+
+
+def uuid_wire(ctx, rule='C12.uuid-wire'):
     """UUIDs that go into ATT PDUs are serialised with to_pdu_bytes() (32-bit UUIDs expanded to 128 bits)."""
     R, p = ctx.r, ctx.p
-    rule = 'C12.uuid-wire'
     n = 0
     for mod in ('bumble.gatt_client', 'bumble.gatt_server', 'bumble.gatt'):
         m = p.module(mod)
@@ -524,6 +554,7 @@ def mtu_agreement_rule(ctx):
 
 
 RULES = [
+    ('C12.encode-once', encode_once),
     ('C12.mtu-agreement', mtu_agreement_rule),
     ('C12.late-binding', late_binding_rule),
     ('C12.indication-slot', indication_slot),
